@@ -180,7 +180,7 @@ def run_property(pid, tier, seed, repo='/repo', only_deductive=False, timeout=No
             from vf import lemmas_flat
             n_l = 0
             for (lname, lhyps, lgoal) in lemmas_flat.goals():
-                if lhyps and smt.quick_sat(lhyps, 5000) != 'sat':
+                if lhyps and smt.sat_probe(lhyps) != 'sat':
                     engine_errors.append('hypotheses of addressing lemma %s not shown satisfiable' % lname)
                 ctx.obligations.append(interp.Obligation('lemma:flat:' + lname, 'lemma', 'vf/flat.py::addressing', 0, list(lhyps), [],
                                                          lgoal, clause='row-major addressing lemma ' + lname))
